@@ -160,7 +160,7 @@ impl Property for C07 {
         "C07"
     }
     fn cases(&self, cfg: &Cfg) -> u64 {
-        3 + cfg.tier.pick(300, 30_000)
+        3 + cfg.tier.pick(3_000, 30_000)
     }
     fn run_case(&self, cfg: &Cfg, i: u64, acc: &mut Acc) {
         let mut ck = Ck { sync: SyncCapture::new(usize::MAX), asyn: AsyncCapture::new(5) };
